@@ -33,7 +33,7 @@ ASSUMPTIONS = [
     "series (a category absent from both is passed explicitly via ncat)",
     "KGE uses the 2009 formulation (ratio of standard deviations, any common ddof)",
 ]
-OBLIGATIONS = {"size-edge": 20, "order:obs-sorted": 10, "order:opposite": 10, "order:constant-sim": 10, "order:sim-high-level": 10,
+OBLIGATIONS = {"size-edge": 20, "order:obs-sorted": 10, "order:opposite": 10, "order:constant-sim": 10, "order:sim-high-level": 10, "order:sim-mean-zero": 5,
                "bias:standard": 50, "bias:normalised": 50, "bias:log": 50,
                "nse": 50, "kge": 50, "corr:Pearson:mean": 30,
                "corr:Pearson:median": 30, "corr:Spearman:mean": 30,
@@ -214,6 +214,8 @@ def run_scores_case(ctx, case):
         ts = np.asarray(trans.forward(sim), dtype=float)
     ok = np.isfinite(to) & np.isfinite(ts)
     excl = case.get("excludenull", False)
+    if excl and len(obs) % 2:
+        excl = np.bool_(True)            # the flag as numpy hands it out
     if excl:
         cls = case.get("nullclass")
         if cls:
@@ -583,6 +585,15 @@ def run(ctx):
         elif sp == 3:
             sim = np.full_like(sim, float(sim[0]))
             ctx.tag("order:constant-sim")
+        elif sp == 5 and not positive:
+            # a simulation whose mean is zero: a "dry" model (all zeros), or anomalies
+            # centred on zero - the observations are what must be non-degenerate
+            if (it // 12) % 2:
+                sim = np.zeros_like(sim)
+            else:
+                sim = sim - sim.mean()
+                sim[0] -= sim.sum()
+            ctx.tag("order:sim-mean-zero")
         elif sp == 4:
             # a simulation sitting at a high level with a spread far below 1e-10 of
             # that level, yet far above rounding (a storage volume in m3, say)
